@@ -47,6 +47,7 @@ func runC07(c *eng.Ctx) {
 	writtenMetricStaysActive(c)
 	pendingOutputClaimOrder(c)
 	walRegistryReplacedInOneHold(c)
+	logDirRemovedOnlyForAnExpiredPartition(c)
 	writableMemDBOnlyReplacedByANewOne(c)
 	rewindToTheAckIsAccepted(c)
 	closeFlushesOldestFirst(c)
